@@ -147,20 +147,24 @@ Definition WF (s : crs) : Prop :=
 Definition Inv (s : crs) (payload : bytes) : Prop :=
   WF s /\ c_finish s = false /\ GR (c_remain s) (inp s) payload.
 
+(* the state after the last chunk: what is left of the line buffer is (a prefix of) the final CR LF *)
+Definition Fin (s : crs) : Prop :=
+  c_finish s = true /\ WF s /\ c_remain s = 0 /\ exists x, zdrop (c_cursor s) (c_line s) ++ x = CRLF.
+
 (* pos_next_chunk at the cursor, input accepted by G0 *)
 Lemma pnc_spec s payload :
   WF s -> G0 (inp s) payload ->
-  exists l rest, inp s = l ++ CRLF ++ rest /\
+  exists l rest, inp s = l ++ CRLF ++ rest /\ find_crlf (inp s) = Some (zlen l) /\
    ((lsize s - c_cursor s < zlen l + 2 /\ pos_next_chunk s (c_cursor s) = Some (false, s))
     \/ (zlen l + 2 <= lsize s - c_cursor s /\
         exists s', pos_next_chunk s (c_cursor s) = Some (true, s')
           /\ c_line s' = c_line s /\ c_cursor s' = c_cursor s + zlen l + 2 /\ c_cap s' = c_cap s /\ c_err s' = false
           /\ ((c_finish s' = c_finish s /\ c_ps s' = c_ps s /\ GR (c_remain s') rest payload /\ inp s' = rest /\ 0 <= c_remain s' < W64)
-              \/ (c_finish s' = true /\ payload = [] /\ c_remain s' = 0)))).
+              \/ (Fin s' /\ payload = [])))).
 Proof.
   intros (Herr & Hcur & Hls & Hcap) HG.
   destruct (G0_line _ _ HG) as (l & rest & HI & Hfind & Hll & Hcase).
-  exists l, rest. split; [exact HI|].
+  exists l, rest. split; [exact HI|]. split; [exact Hfind|].
   set (R := zdrop (c_cursor s) (c_line s)).
   assert (HR : zlen R = lsize s - c_cursor s) by (unfold R; rewrite zlen_zdrop; unfold lsize in *; lia).
   pose proof (zlen_nonneg l) as Hl0.
@@ -202,9 +206,15 @@ Proof.
       destruct (Z.ltb_spec 0 (total_len (c_ps s))) as [Hpos|Hzero].
       * destruct (sk_read_enough (c_ps s) (c_err s) (total_len (c_ps s)) ltac:(lia)) as (ps' & E & _).
         rewrite E. eexists. split; [reflexivity|]. cbn [c_line c_cursor c_cap c_err c_finish c_ps c_remain].
-        splits; try reflexivity; try lia; try assumption. right. splits; auto.
+        splits; try reflexivity; try lia; try assumption. right. split; [|exact Hp].
+        unfold Fin, WF, lsize. cbn [c_line c_cursor c_cap c_err c_finish c_ps c_remain]. unfold lsize in *.
+        splits; auto; try lia. exists (concat (c_ps s)). rewrite <- Hrc, <- Hrest. unfold R.
+        rewrite zdrop_zdrop by lia. do 2 f_equal. lia.
       * eexists. split; [reflexivity|]. cbn [c_line c_cursor c_cap c_err c_finish c_ps c_remain].
-        splits; try reflexivity; try lia; try assumption. right. splits; auto.
+        splits; try reflexivity; try lia; try assumption. right. split; [|exact Hp].
+        unfold Fin, WF, lsize. cbn [c_line c_cursor c_cap c_err c_finish c_ps c_remain]. unfold lsize in *.
+        splits; auto; try lia. exists (concat (c_ps s)). rewrite <- Hrc, <- Hrest. unfold R.
+        rewrite zdrop_zdrop by lia. do 2 f_equal. lia.
     + (* a chunk *)
       destruct (Z.eqb_spec (hex_to_u64 l) 0) as [|_]; [lia|]. cbn [negb orb].
       eexists. split; [reflexivity|]. cbn [c_line c_cursor c_cap c_err c_finish c_ps c_remain].
@@ -217,7 +227,7 @@ Qed.
 (* ------------------------------------------------------ read_from_line_buf -- *)
 Definition RemOk (s : crs) : Prop := 0 <= c_remain s < W64.
 Definition Post (s : crs) (payload : bytes) : Prop :=
-  (c_finish s = true /\ payload = []) \/ (Inv s payload /\ RemOk s).
+  (Fin s /\ payload = []) \/ (Inv s payload /\ RemOk s).
 
 Definition set_cr (s : crs) (cur rem : Z) : crs :=
   mkCrs (c_line s) cur rem (c_finish s) (c_ps s) (c_err s) (c_closed s) (c_cap s).
@@ -251,7 +261,6 @@ Lemma compact_props s : WF s ->
 Proof.
   intros (H1 & H2 & H3 & H4). unfold compact, WF, inp, set_line, lsize in *. cbn.
   rewrite zlen_zdrop by lia. splits; auto; try lia.
-  rewrite zdrop_nonpos by lia. reflexivity.
 Qed.
 
 Lemma rflb_finished fuel s count ret out :
@@ -289,10 +298,10 @@ Proof.
   cbn [read_from_line_buf]. rewrite Hfin. cbn [negb]. rewrite andb_true_r.
   destruct (Z.ltb_spec 0 count) as [Hc0|Hc0]; cbn [andb].
   2:{ exists 0, s. rewrite ztake_nonpos, zdrop_nonpos, app_nil_r, !Z.add_0_r, Z.sub_0_r by lia.
-      splits; auto; try lia; [pose proof (zlen_nonneg payload); lia|right; split; [splits; auto|exact HRem]]. }
+      splits; auto; try lia; [pose proof (zlen_nonneg payload); lia|right; split; [unfold Inv; splits; auto|exact HRem]]. }
   destruct (Z.ltb_spec (c_cursor s) (lsize s)) as [Hav|Hav].
   2:{ exists 0, s. rewrite ztake_nonpos, zdrop_nonpos, app_nil_r, !Z.add_0_r, Z.sub_0_r by lia.
-      splits; auto; try lia; [pose proof (zlen_nonneg payload); lia|right; split; [splits; auto|exact HRem]]. }
+      splits; auto; try lia; [pose proof (zlen_nonneg payload); lia|right; split; [unfold Inv; splits; auto|exact HRem]]. }
   destruct (Z.ltb_spec (c_cursor s) 0) as [|_]; [lia|].
   set (k := c_remain s) in *. destruct HRem as [Hk0 HkW].
   set (n := Z.min count (Z.min k (lsize s - c_cursor s))).
@@ -304,8 +313,9 @@ Proof.
   { rewrite <- Htake. unfold inp. rewrite ztake_app_le; [reflexivity|].
     rewrite zlen_zdrop; unfold lsize in *; lia. }
   rewrite Hdata.
-  change (mkCrs (c_line s) (c_cursor s + n) (wrap (k - n)) (c_finish s) (c_ps s) (c_err s) (c_closed s) (c_cap s))
-    with (set_cr s (c_cursor s + n) (wrap (k - n))).
+  assert (Hs1 : mkCrs (c_line s) (c_cursor s + n) (wrap (k - n)) false (c_ps s) (c_err s) (c_closed s) (c_cap s)
+                = set_cr s (c_cursor s + n) (wrap (k - n))) by (unfold set_cr; rewrite Hfin; reflexivity).
+  rewrite Hs1. clear Hs1.
   rewrite (wrap_small (k - n)) by lia.
   set (s1 := set_cr s (c_cursor s + n) (k - n)).
   assert (HWF1 : WF s1) by (apply WF_set_cr; [exact HWF|lia]).
@@ -316,27 +326,26 @@ Proof.
   destruct (Z.eqb_spec (k - n) 0) as [Hz|Hnz].
   - (* chunk data exhausted: look for the next size line *)
     rewrite Hz in HGR1. rewrite <- Hinp1 in HGR1. apply GR_0_inv in HGR1.
-    destruct (pnc_spec s1 _ HWF1 HGR1) as (l & rest & HI & [[Hshort E]|[Hlong (s2 & E & Hline2 & Hcur2 & Hcap2 & Herr2 & Hcase)]]).
+    destruct (pnc_spec s1 _ HWF1 HGR1) as (l & rest & HI & _ & [[Hshort E]|[Hlong (s2 & E & Hline2 & Hcur2 & Hcap2 & Herr2 & Hcase)]]).
     + (* incomplete line: compact and return *)
       change (c_cursor s1) with (c_cursor s + n) in E. rewrite E.
       destruct (compact_props s1 HWF1) as (HWFc & Hinpc & Hfinc & Hremc & Hcurc).
       exists n, (compact s1). splits; auto; try lia.
-      * right. split; [splits; auto|].
-        -- rewrite Hfinc. exact Hfin1.
+      * right. split; [unfold Inv; splits; auto|]; try (rewrite Hfinc; exact Hfin1).
         -- rewrite Hremc, Hinpc. change (c_remain s1) with (k - n). rewrite Hz. apply GR_0. exact HGR1.
         -- unfold RemOk. rewrite Hremc. change (c_remain s1) with (k - n). lia.
       * intros _. rewrite Hinpc. lia.
       * intros _ _ Hr. rewrite Hremc in Hr. change (c_remain s1) with (k - n) in Hr. lia.
     + change (c_cursor s1) with (c_cursor s + n) in E. rewrite E.
       pose proof (zlen_nonneg l) as Hl0.
-      destruct Hcase as [(Hfin2 & Hps2 & HGR2 & Hinp2 & Hrem2)|(Hfin2 & Hp2 & Hrem2)].
+      destruct Hcase as [(Hfin2 & Hps2 & HGR2 & Hinp2 & Hrem2)|Hcase].
       * (* a further chunk (or an empty line) inside the line buffer *)
         assert (HWF2 : WF s2).
         { unfold WF, lsize in *. rewrite Hline2, Hcur2, Hcap2. cbn [s1 set_cr c_cursor c_line c_cap] in *. splits; auto; lia. }
         destruct (reset_props s2 HWF2) as (HWFr & Hinpr & Hfinr & Hremr & Havr).
         assert (HRem2 : RemOk (reset_if_end s2)) by (unfold RemOk; rewrite Hremr; exact Hrem2).
         assert (HInv2 : Inv (reset_if_end s2) (zdrop n payload)).
-        { splits; auto; [rewrite Hfinr, Hfin2; exact Hfin1|]. rewrite Hremr, Hinpr, Hinp2. exact HGR2. }
+        { unfold Inv; splits; auto; try (rewrite Hfinr, Hfin2; exact Hfin1). rewrite Hremr, Hinpr, Hinp2. exact HGR2. }
         assert (Hfuel2 : lsize (reset_if_end s2) - c_cursor (reset_if_end s2) < Z.of_nat f).
         { rewrite Havr. unfold lsize in *. rewrite Hline2, Hcur2. cbn [s1 set_cr c_cursor c_line] in *. lia. }
         destruct (IH (reset_if_end s2) (count - n) (ret + n) (out ++ ztake n payload) (zdrop n payload)
@@ -351,14 +360,19 @@ Proof.
         -- intros Hf. specialize (Hmeas Hf). rewrite Hinpr, Hinp2 in Hmeas.
            assert (zlen rest <= zlen (inp s1)) by (rewrite HI, !zlen_app; pose proof (zlen_nonneg CRLF); lia).
            lia.
-        -- rewrite Hcap'. exact Hcapr.
         -- intros Hf Hcnt Hr. apply Hpost'; auto. lia.
       * (* the last chunk: finished *)
-        assert (Hfinr : c_finish (reset_if_end s2) = true).
-        { unfold reset_if_end. destruct (c_cursor s2 =? lsize s2); cbn; exact Hfin2. }
+        destruct Hcase as [HFin2 Hp2].
+        assert (HFinr : Fin (reset_if_end s2)).
+        { destruct HFin2 as (Hf2 & HWF2 & Hr2 & x & Hx). destruct (reset_props s2 HWF2) as (HWFr & _ & Hfinr & Hremr & _).
+          unfold Fin. rewrite Hfinr, Hremr. splits; auto.
+          unfold reset_if_end. destruct (Z.eqb_spec (c_cursor s2) (lsize s2)) as [Ee|Ee].
+          - cbn. exists CRLF. reflexivity.
+          - exists x. exact Hx. }
+        pose proof HFinr as (Hfinr & _).
         rewrite rflb_finished by exact Hfinr.
         exists n, (reset_if_end s2). splits; auto; try lia.
-        -- left. split; [exact Hfinr|exact Hp2].
+        -- left. split; [exact HFinr|exact Hp2].
         -- intros Hf. rewrite Hfinr in Hf. discriminate.
         -- unfold reset_if_end. destruct (c_cursor s2 =? lsize s2); cbn; rewrite Hcap2; reflexivity.
         -- intros Hf. rewrite Hfinr in Hf. discriminate.
@@ -366,18 +380,354 @@ Proof.
     assert (Hk : 0 < k) by lia.
     destruct (reset_props s1 HWF1) as (HWFr & Hinpr & Hfinr & Hremr & Havr).
     assert (HInv1 : Inv (reset_if_end s1) (zdrop n payload)).
-    { splits; auto; [rewrite Hfinr; exact Hfin1|]. rewrite Hremr, Hinpr, Hinp1. exact HGR1. }
+    { unfold Inv; splits; auto; try (rewrite Hfinr; exact Hfin1). rewrite Hremr, Hinpr, Hinp1. exact HGR1. }
     assert (HRem1 : RemOk (reset_if_end s1)) by (unfold RemOk; rewrite Hremr; cbn; lia).
     assert (Hfuel1 : lsize (reset_if_end s1) - c_cursor (reset_if_end s1) < Z.of_nat f).
     { rewrite Havr. unfold lsize in *. cbn [s1 set_cr c_cursor c_line]. lia. }
     destruct (IH (reset_if_end s1) (count - n) (ret + n) (out ++ ztake n payload) (zdrop n payload)
                  HInv1 HRem1 ltac:(lia) Hfuel1) as (n2 & s' & E2 & Hn2a & Hn2b & HPost & Hmeas & Hcap' & Hpost').
     rewrite E2. rewrite zlen_zdrop in Hn2b by lia.
+    assert (Hcapr1 : c_cap (reset_if_end s1) = c_cap s)
+      by (unfold reset_if_end; destruct (c_cursor s1 =? lsize s1); reflexivity).
     exists (n + n2), s'. splits; try lia.
     + f_equal. f_equal; [f_equal; [f_equal; lia|]; lia|].
       rewrite <- app_assoc, ztake_add by lia. reflexivity.
     + rewrite zdrop_zdrop in HPost by lia. replace (n + n2) with (n2 + n) by lia. exact HPost.
     + intros Hf. specialize (Hmeas Hf). rewrite Hinpr in Hmeas. lia.
-    + rewrite Hcap'. unfold reset_if_end. destruct (c_cursor s1 =? lsize s1); reflexivity.
     + intros Hf Hcnt Hr. apply Hpost'; auto. lia.
+Qed.
+
+(* ------------------------------------------------------- get_new_chunk ---- *)
+Lemma G0_len I p : G0 I p -> 2 <= zlen I.
+Proof.
+  intros H. destruct (G0_line _ _ H) as (l & rest & -> & _). rewrite !zlen_app. change (zlen CRLF) with 2.
+  pose proof (zlen_nonneg l). pose proof (zlen_nonneg rest). lia.
+Qed.
+
+Lemma gnc_loop_spec : forall fuel s payload p,
+  WF s -> c_finish s = false -> c_cursor s = 0 -> G0 (inp s) payload ->
+  find_crlf (inp s) = Some p -> (lsize s < p + 2 \/ lsize s <= 2) ->
+  total_len (c_ps s) < Z.of_nat fuel ->
+  exists s', gnc_loop fuel s = Some (0, s') /\ Post s' payload /\ c_cap s' = c_cap s
+    /\ (c_finish s' = false -> zlen (inp s') <= zlen (inp s) - 2).
+Proof.
+  induction fuel as [|f IH]; intros s payload p HWF Hfin Hcur0 HG Hfind Hpre Hfuel.
+  { pose proof (zlen_nonneg (concat (c_ps s))). unfold total_len in Hfuel. lia. }
+  pose proof HWF as (Herr & Hcur & Hls & Hcap).
+  cbn [gnc_loop]. rewrite Hfin.
+  destruct (G0_line _ _ HG) as (l & rest & HI & Hfind' & Hll & Hcase).
+  rewrite Hfind in Hfind'. inversion Hfind'; subst p. clear Hfind'.
+  pose proof (zlen_nonneg l) as Hl0. pose proof (zlen_nonneg rest) as Hr0.
+  assert (Hinp : inp s = c_line s ++ concat (c_ps s)).
+  { unfold inp. rewrite Hcur0, zdrop_nonpos by lia. reflexivity. }
+  assert (Hlen : zlen (inp s) = zlen l + 2 + zlen rest).
+  { rewrite HI, !zlen_app. change (zlen CRLF) with 2. lia. }
+  assert (Hstream : 0 < total_len (c_ps s)).
+  { rewrite Hinp, zlen_app in Hlen. unfold total_len. fold (lsize s) in Hlen.
+    destruct Hpre as [Hinc|Hsmall]; [lia|].
+    destruct (Z.lt_ge_cases (lsize s) (zlen l + 2)); [lia|].
+    assert (l = []) by (apply zlen_zero_nil; lia). subst l.
+    destruct Hcase as [[_ HG']|[(Hne & _)|(Hk & _)]]; [|contradiction|change (hex_to_u64 []) with 0 in Hk; lia].
+    pose proof (G0_len _ _ HG'). change (zlen []) with 0 in *. lia. }
+  assert (Hcnt : 0 < LINE_BUFFER_SIZE - lsize s) by (unfold LINE_BUFFER_SIZE in *; destruct Hpre; lia).
+  rewrite wrap_small by (unfold W64, LINE_BUFFER_SIZE in *; pose proof (zlen_nonneg (c_line s)); unfold lsize in *; lia).
+  rewrite Herr.
+  destruct (sk_recv_spec (c_ps s) (LINE_BUFFER_SIZE - lsize s) Hcnt Hstream) as (r & bs & ps' & E & Hr & Hbs & Hbl & Hps').
+  rewrite E.
+  destruct (Z.ltb_spec r 0) as [|_]; [lia|].
+  destruct (Z.eqb_spec r 0) as [|_]; [lia|].
+  destruct (Z.ltb_spec (c_cap s) (lsize s + r)) as [|_]; [lia|].
+  set (s1 := set_line (mkCrs (c_line s) (c_cursor s) (c_remain s) false ps' false (c_closed s) (c_cap s))
+                      (c_line s ++ bs) (c_cursor s)).
+  assert (Hls1 : lsize s1 = lsize s + r) by (unfold lsize, s1; cbn; rewrite zlen_app; lia).
+  assert (HWF1 : WF s1) by (unfold WF; rewrite Hls1; cbn; splits; auto; lia).
+  assert (Hinp1 : inp s1 = inp s).
+  { rewrite Hinp. unfold inp, s1. cbn [set_line c_cursor c_line c_ps]. rewrite Hcur0, zdrop_nonpos by lia.
+    rewrite Hps', Hbs, <- app_assoc, ztake_zdrop_id. reflexivity. }
+  assert (Htot1 : total_len ps' = total_len (c_ps s) - r).
+  { unfold total_len. rewrite Hps', zlen_zdrop; [reflexivity|]. split; [lia|].
+    rewrite <- Hbl at 1. rewrite Hbs. unfold ztake, zlen. rewrite firstn_length. lia. }
+  assert (Hfuel1 : total_len (c_ps s1) < Z.of_nat f) by (cbn; lia).
+  assert (HG1 : G0 (inp s1) payload) by (rewrite Hinp1; exact HG).
+  assert (Hfind1 : find_crlf (inp s1) = Some (zlen l)) by (rewrite Hinp1; exact Hfind).
+  destruct (Z.leb_spec (lsize s1) 2) as [Hsm|Hbig].
+  - destruct (IH s1 payload (zlen l) HWF1 eq_refl Hcur0 HG1 Hfind1 ltac:(right; exact Hsm) Hfuel1)
+      as (s' & E' & HP & Hc' & Hm).
+    exists s'. rewrite E'. splits; auto. intros Hf. rewrite <- Hinp1. auto.
+  - destruct (pnc_spec s1 payload HWF1 HG1) as (l2 & rest2 & HI2 & Hfind2 & Hres).
+    rewrite Hfind1 in Hfind2. inversion Hfind2 as [Hll2]. 
+    change (c_cursor s1) with (c_cursor s) in Hres. rewrite Hcur0 in Hres.
+    destruct Hres as [[Hshort E2]|[Hlong (s2 & E2 & Hline2 & Hcur2 & Hcap2 & Herr2 & Hcase2)]].
+    + rewrite E2.
+      destruct (IH s1 payload (zlen l) HWF1 eq_refl Hcur0 HG1 Hfind1 ltac:(left; lia) Hfuel1)
+        as (s' & E' & HP & Hc' & Hm).
+      exists s'. rewrite E'. splits; auto. intros Hf. rewrite <- Hinp1. auto.
+    + rewrite E2. exists s2. split; [reflexivity|].
+      pose proof (zlen_nonneg l2).
+      destruct Hcase2 as [(Hfin2 & Hps2 & HGR2 & Hinp2 & Hrem2)|(HFin2 & Hp2)].
+      * split; [|split; [rewrite Hcap2; reflexivity|]].
+        -- right. split; [|exact Hrem2]. unfold Inv, WF. rewrite Hinp2. unfold lsize in *. rewrite Hline2, Hcur2, Hcap2.
+           cbn [s1 set_line c_line c_cap] in *. splits; auto; try lia.
+        -- intros _. rewrite Hinp2, <- Hinp1, HI2, !zlen_app. change (zlen CRLF) with 2. lia.
+      * split; [left; split; [exact HFin2|exact Hp2]|]. split; [rewrite Hcap2; reflexivity|].
+        intros Hf. destruct HFin2 as (Hfin2 & _). rewrite Hfin2 in Hf. discriminate.
+Qed.
+
+Lemma gnc_spec fuel s payload :
+  Inv s payload -> c_remain s = 0 -> total_len (c_ps s) < Z.of_nat fuel ->
+  exists s', get_new_chunk fuel s = Some (0, s') /\ Post s' payload /\ c_cap s' = c_cap s
+    /\ (c_finish s' = false -> zlen (inp s') <= zlen (inp s) - 2).
+Proof.
+  intros (HWF & Hfin & HGR) Hrem Hfuel. rewrite Hrem in HGR. apply GR_0_inv in HGR.
+  pose proof HWF as (Herr & Hcur & Hls & Hcap).
+  unfold get_new_chunk.
+  destruct (Z.ltb_spec (c_cursor s) (lsize s)) as [Hlt|Hge].
+  - destruct (pnc_spec s payload HWF HGR) as (l & rest & HI & Hfind & [[Hshort E]|[Hlong (s2 & E & Hline2 & Hcur2 & Hcap2 & Herr2 & Hcase2)]]).
+    + rewrite E. destruct (compact_props s HWF) as (HWFc & Hinpc & Hfinc & Hremc & Hcurc).
+      destruct (gnc_loop_spec fuel (compact s) payload (zlen l) HWFc ltac:(rewrite Hfinc; exact Hfin) Hcurc
+                  ltac:(rewrite Hinpc; exact HGR) ltac:(rewrite Hinpc; exact Hfind)) as (s' & E' & HP & Hc' & Hm).
+      { left. unfold lsize, compact. cbn. rewrite zlen_zdrop by (unfold lsize in *; lia). unfold lsize in *. lia. }
+      { exact Hfuel. }
+      exists s'. rewrite E'. splits; auto; try (intros Hf; rewrite <- Hinpc; auto).
+    + rewrite E. exists s2. split; [reflexivity|]. pose proof (zlen_nonneg l).
+      destruct Hcase2 as [(Hfin2 & Hps2 & HGR2 & Hinp2 & Hrem2)|(HFin2 & Hp2)].
+      * split; [|split; [exact Hcap2|]].
+        -- right. split; [|exact Hrem2]. unfold Inv, WF. rewrite Hinp2. unfold lsize in *. rewrite Hline2, Hcur2, Hcap2, Hfin2.
+           splits; auto; try lia.
+        -- intros _. rewrite Hinp2, HI, !zlen_app. change (zlen CRLF) with 2. lia.
+      * split; [left; split; [exact HFin2|exact Hp2]|]. split; [exact Hcap2|].
+        intros Hf. destruct HFin2 as (Hfin2 & _). rewrite Hfin2 in Hf. discriminate.
+  - assert (Heq : c_cursor s = lsize s) by lia. rewrite Heq, Z.eqb_refl.
+    set (s0 := set_line s [] 0).
+    assert (Hinp0 : inp s0 = inp s).
+    { unfold inp, s0. cbn [set_line c_cursor c_line c_ps]. rewrite (zdrop_all (c_cursor s)) by (unfold lsize in *; lia). reflexivity. }
+    assert (HWF0 : WF s0) by (unfold WF, s0, lsize; cbn; unfold LINE_BUFFER_SIZE in *; splits; auto; lia).
+    destruct (G0_line _ _ HGR) as (l & rest & _ & Hfind & _).
+    destruct (gnc_loop_spec fuel s0 payload (zlen l) HWF0 Hfin eq_refl
+                ltac:(rewrite Hinp0; exact HGR) ltac:(rewrite Hinp0; exact Hfind)) as (s' & E' & HP & Hc' & Hm).
+    { right. unfold lsize, s0. cbn. lia. }
+    { exact Hfuel. }
+    exists s'. rewrite E'. splits; auto; try (intros Hf; rewrite <- Hinp0; auto).
+Qed.
+
+(* ------------------------------------------------------------ finished ---- *)
+Lemma gnc_loop_finished fuel s : c_finish s = true -> gnc_loop fuel s = Some (0, s).
+Proof. intros H. destruct fuel; cbn [gnc_loop]; rewrite H; reflexivity. Qed.
+
+Lemma prefix_of_crlf (r x : bytes) : r ++ x = CRLF -> r = [] \/ r = [13] \/ r = [13; 10].
+Proof.
+  intros H. destruct r as [|a r]; [left; reflexivity|]. right.
+  cbn in H. unfold CRLF in H. injection H as Ha Hr.
+  destruct r as [|b r]; [left; subst; reflexivity|]. right.
+  cbn in Hr. injection Hr as Hb Hr2.
+  destruct r; [subst; reflexivity|discriminate].
+Qed.
+
+Lemma gnc_finished fuel s : Fin s ->
+  exists s', get_new_chunk fuel s = Some (0, s') /\ c_finish s' = true /\ c_cap s' = c_cap s.
+Proof.
+  intros (Hfin & (Herr & Hcur & Hls & Hcap) & Hrem & x & Hx).
+  unfold get_new_chunk.
+  destruct (Z.ltb_spec (c_cursor s) (lsize s)) as [Hlt|Hge].
+  - unfold pos_next_chunk.
+    destruct (Z.ltb_spec (c_cursor s) 0) as [|_]; [lia|].
+    destruct (Z.ltb_spec (lsize s) (c_cursor s)) as [|_]; [lia|]. cbn [orb].
+    destruct (prefix_of_crlf _ _ Hx) as [E|[E|E]]; rewrite E.
+    + exfalso. apply (f_equal zlen) in E. rewrite zlen_zdrop in E by (unfold lsize in *; lia).
+      change (zlen (@nil Z)) with 0 in E. unfold lsize in *. lia.
+    + cbn [find_crlf]. rewrite gnc_loop_finished by exact Hfin.
+      eexists. split; [reflexivity|]. split; [exact Hfin|reflexivity].
+    + cbn. eexists. split; [reflexivity|]. split; [exact Hfin|reflexivity].
+  - assert (Heq : c_cursor s = lsize s) by lia. rewrite Heq, Z.eqb_refl.
+    rewrite gnc_loop_finished by exact Hfin.
+    eexists. split; [reflexivity|]. split; [exact Hfin|reflexivity].
+Qed.
+
+Lemma loop_finished fuel s count ret out :
+  c_finish s = true -> crs_read_loop fuel s count ret out = Some (ret, out, s).
+Proof. intros H. destruct fuel; cbn [crs_read_loop]; rewrite H, andb_false_r; reflexivity. Qed.
+
+(* -------------------------------------------------------- read_from_stream -- *)
+Lemma rfs_spec s count payload :
+  Inv s payload -> RemOk s -> 0 < c_remain s -> 0 < count -> c_cursor s = lsize s ->
+  let r := Z.min count (c_remain s) in
+  exists s', read_from_stream s count = (r, s', count - r, ztake r payload)
+    /\ Inv s' (zdrop r payload) /\ RemOk s' /\ c_remain s' = c_remain s - r
+    /\ inp s' = zdrop r (inp s) /\ c_cap s' = c_cap s.
+Proof.
+  intros (HWF & Hfin & HGR) (Hk0 & HkW) Hk Hc Hcl r.
+  pose proof HWF as (Herr & Hcur & Hls & Hcap).
+  assert (Hinp : inp s = concat (c_ps s)).
+  { unfold inp. rewrite zdrop_all by (unfold lsize in *; lia). reflexivity. }
+  destruct (GR_len _ _ _ HGR) as (Hkp & HkI).
+  assert (Hr : 1 <= r <= c_remain s /\ r <= count) by (unfold r; lia).
+  destruct (GR_advance _ _ _ r HGR ltac:(lia)) as (Htake & HGR1).
+  unfold read_from_stream. fold r.
+  destruct (sk_read_enough (c_ps s) (c_err s) r) as (ps' & E & C).
+  { rewrite Hinp in HkI. unfold total_len. lia. }
+  rewrite E. destruct (Z.ltb_spec r 0) as [|_]; [lia|].
+  rewrite wrap_small by lia.
+  eexists. split; [f_equal; rewrite <- Htake, Hinp; reflexivity|].
+  assert (Hinp' : zdrop (c_cursor s) (c_line s) ++ concat ps' = zdrop r (inp s)).
+  { rewrite C, Hinp. rewrite zdrop_all by (unfold lsize in *; lia). reflexivity. }
+  unfold Inv, WF, RemOk, inp, lsize. cbn [c_line c_cursor c_cap c_err c_finish c_ps c_remain].
+  unfold lsize in *. splits; auto; try lia.
+  rewrite Hinp'. exact HGR1.
+Qed.
+
+(* ---------------------------------------------------------------- read ---- *)
+Lemma zdrop_nil_len {A} n (l : list A) : 0 <= n <= zlen l -> zdrop n l = [] -> n = zlen l.
+Proof.
+  intros Hn H. apply (f_equal zlen) in H. rewrite zlen_zdrop in H by lia. change (zlen (@nil A)) with 0 in H. lia.
+Qed.
+
+Lemma loop_spec : forall fuel s count ret out payload,
+  Inv s payload -> RemOk s -> 0 <= count -> zlen (inp s) + 1 < Z.of_nat fuel ->
+  let n := Z.min count (zlen payload) in
+  exists s', crs_read_loop fuel s count ret out = Some (ret + n, out ++ ztake n payload, s')
+    /\ Post s' (zdrop n payload) /\ c_cap s' = c_cap s
+    /\ (zlen payload < count -> c_finish s' = true).
+Proof.
+  induction fuel as [|f IH]; intros s count ret out payload HInv HRem Hc Hfuel n.
+  { pose proof (zlen_nonneg (inp s)). lia. }
+  pose proof HInv as (HWF & Hfin & HGR). pose proof HWF as (Herr & Hcur & Hls & Hcap).
+  pose proof (zlen_nonneg payload) as Hpl.
+  cbn [crs_read_loop]. rewrite Hfin. cbn [negb]. rewrite andb_true_r.
+  destruct (Z.ltb_spec 0 count) as [Hc0|Hc0].
+  2:{ assert (n = 0) by (unfold n; lia). exists s. rewrite H, ztake_nonpos, zdrop_nonpos, app_nil_r, Z.add_0_r by lia.
+      splits; auto; [right; split; assumption|lia]. }
+  assert (Hav : lsize s - c_cursor s < Z.of_nat (S f)).
+  { assert (lsize s - c_cursor s <= zlen (inp s)).
+    { unfold inp. rewrite zlen_app, zlen_zdrop by (unfold lsize in *; lia). pose proof (zlen_nonneg (concat (c_ps s))). unfold lsize. lia. }
+    lia. }
+  destruct (rflb_spec (S f) s count 0 [] payload HInv HRem ltac:(lia) Hav)
+    as (n1 & s1 & E1 & Hn1 & Hn1p & HPost1 & Hmeas1 & Hcap1 & Hpost1).
+  rewrite E1. cbn [app]. rewrite Z.add_0_l.
+  destruct HPost1 as [[HFin1 Hp1]|[HInv1 HRem1]].
+  - (* finished inside the line buffer *)
+    pose proof HFin1 as (Hfin1 & _ & Hrem1 & _).
+    assert (Hn1eq : n1 = zlen payload) by (apply zdrop_nil_len; [lia|exact Hp1]).
+    rewrite Hrem1. change (0 <? 0) with false. cbn [andb]. cbv beta iota.
+    rewrite Hrem1. change (0 =? 0) with true. cbv beta iota.
+    destruct (gnc_finished (S f) s1 HFin1) as (s3 & E3 & Hfin3 & Hcap3).
+    rewrite E3. change (0 <? 0) with false. cbv beta iota.
+    rewrite loop_finished by exact Hfin3.
+    assert (Hn : n = n1) by (unfold n; lia).
+    exists s3. rewrite Hn. splits; auto.
+    + (* Post s3 [] *)
+      left. split; [|exact Hp1].
+      (* Fin s3: re-derive from gnc on a finished state *)
+      clear - E3 HFin1 Hfin3. destruct HFin1 as (Hfin & (Herr & Hcur & Hls & Hcap) & Hrem & x & Hx).
+      unfold get_new_chunk in E3.
+      destruct (Z.ltb_spec (c_cursor s1) (lsize s1)) as [Hlt|Hge].
+      * unfold pos_next_chunk in E3.
+        destruct (Z.ltb_spec (c_cursor s1) 0) as [|_]; [lia|].
+        destruct (Z.ltb_spec (lsize s1) (c_cursor s1)) as [|_]; [lia|]. cbn [orb] in E3.
+        destruct (prefix_of_crlf _ _ Hx) as [E|[E|E]]; rewrite E in E3.
+        -- exfalso. apply (f_equal zlen) in E. rewrite zlen_zdrop in E by (unfold lsize in *; lia).
+           change (zlen (@nil Z)) with 0 in E. unfold lsize in *. lia.
+        -- cbn [find_crlf] in E3. rewrite gnc_loop_finished in E3 by exact Hfin. inversion E3; subst s3.
+           destruct (compact_props s1 ltac:(unfold WF; splits; auto)) as (HWFc & _ & _ & Hremc & Hcurc).
+           unfold Fin. splits; auto; [rewrite Hremc; exact Hrem|].
+           exists [10]. unfold compact, set_line. cbn [c_cursor c_line]. rewrite zdrop_nonpos by lia. rewrite E. reflexivity.
+        -- cbn in E3. inversion E3; subst s3. unfold Fin, WF, lsize. cbn [c_line c_cursor c_cap c_err c_finish c_ps c_remain].
+           assert (Hl2 : zlen (zdrop (c_cursor s1) (c_line s1)) = 2) by (rewrite E; reflexivity).
+           rewrite zlen_zdrop in Hl2 by (unfold lsize in *; lia). unfold lsize in *.
+           splits; auto; try lia. exists CRLF. rewrite zdrop_all by lia. reflexivity.
+      * assert (Heq : c_cursor s1 = lsize s1) by lia. rewrite Heq, Z.eqb_refl in E3.
+        rewrite gnc_loop_finished in E3 by exact Hfin. inversion E3; subst s3.
+        unfold Fin, WF, set_line, lsize. cbn [c_line c_cursor c_cap c_err c_finish c_ps c_remain].
+        change (zlen (@nil Z)) with 0. unfold LINE_BUFFER_SIZE in *. splits; auto; try lia. exists CRLF. reflexivity.
+    + lia.
+  - (* not finished after the line buffer *)
+    pose proof HInv1 as (HWF1 & Hfin1 & HGR1). pose proof HRem1 as (Hk1 & HkW1).
+    specialize (Hmeas1 Hfin1).
+    set (p1 := zdrop n1 payload) in *. assert (Hp1l : zlen p1 = zlen payload - n1) by (unfold p1; rewrite zlen_zdrop; lia).
+    destruct (Z.ltb_spec 0 (c_remain s1)) as [Hr1pos|Hr1z]; cbn [andb].
+    + destruct (Z.ltb_spec 0 (count - n1)) as [Hc1pos|Hc1z]; cbv beta iota.
+      * (* read the rest of the chunk from the socket *)
+        specialize (Hpost1 Hfin1 Hc1pos Hr1pos).
+        destruct (rfs_spec s1 (count - n1) p1 HInv1 HRem1 Hr1pos Hc1pos Hpost1)
+          as (s2 & E2 & HInv2 & HRem2 & Hrem2 & Hinp2 & Hcap2).
+        set (r := Z.min (count - n1) (c_remain s1)) in *.
+        assert (Hr : 1 <= r) by (unfold r; lia).
+        rewrite E2. cbv beta iota. destruct (Z.ltb_spec r 0) as [|_]; [lia|]. cbv beta iota.
+        change (0 <? 0) with false. cbv beta iota.
+        destruct (Z.eqb_spec r 0) as [|_]; [lia|]. rewrite andb_false_r.
+        destruct (GR_len _ _ _ HGR1) as (Hk1p & Hk1I).
+        assert (Hlen2 : zlen (inp s2) = zlen (inp s1) - r) by (rewrite Hinp2, zlen_zdrop; lia).
+        pose proof HInv2 as (HWF2 & Hfin2 & HGR2).
+        assert (Hout : (ztake n1 payload ++ ztake r p1) = ztake (n1 + r) payload)
+          by (unfold p1; rewrite ztake_add by lia; reflexivity).
+        assert (Hp2 : zdrop r p1 = zdrop (n1 + r) payload) by (unfold p1; rewrite zdrop_zdrop by lia; f_equal; lia).
+        destruct (Z.eqb_spec (c_remain s2) 0) as [Hz2|Hnz2].
+        -- destruct (gnc_spec (S f) s2 (zdrop r p1) HInv2 Hz2) as (s3 & E3 & HPost3 & Hcap3 & Hmeas3).
+           { assert (total_len (c_ps s2) <= zlen (inp s2)).
+             { unfold inp, total_len. rewrite zlen_app. pose proof (zlen_nonneg (zdrop (c_cursor s2) (c_line s2))). lia. }
+             lia. }
+           rewrite E3. change (0 <? 0) with false. cbv beta iota.
+           destruct HPost3 as [[HFin3 Hp3]|[HInv3 HRem3]].
+           ++ pose proof HFin3 as (Hfin3 & _). rewrite loop_finished by exact Hfin3.
+              assert (Hn : n = n1 + r).
+              { rewrite Hp2 in Hp3. apply zdrop_nil_len in Hp3; [|lia]. unfold n. lia. }
+              exists s3. rewrite Hn, <- Hout, app_assoc, Z.add_assoc. splits; auto; try lia.
+              left. split; [exact HFin3|]. rewrite <- Hp2. exact Hp3.
+           ++ pose proof HInv3 as (_ & Hfin3 & _). specialize (Hmeas3 Hfin3).
+              destruct (IH s3 (count - n1 - r) (ret + n1 + r) ((out ++ ztake n1 payload) ++ ztake r p1) (zdrop r p1)
+                           HInv3 HRem3 ltac:(lia) ltac:(lia)) as (s' & E' & HPost' & Hcap' & Hfin').
+              rewrite E'. rewrite Hp2 in *. rewrite zlen_zdrop in * by lia.
+              set (n' := Z.min (count - n1 - r) (zlen payload - (n1 + r))) in *.
+              assert (Hn : n = n1 + r + n') by (unfold n, n'; lia).
+              exists s'. rewrite Hn. splits; try lia.
+              ** f_equal. f_equal; [f_equal; lia|].
+                 rewrite <- !app_assoc. f_equal. rewrite Hout. rewrite (ztake_add (n1 + r) n') by (unfold n'; lia). reflexivity.
+              ** rewrite zdrop_zdrop in HPost' by (unfold n'; lia). replace (n1 + r + n') with (n' + (n1 + r)) by lia. exact HPost'.
+              ** intros Hlt. apply Hfin'. lia.
+        -- (* the chunk is not exhausted: count is *)
+           assert (Hcnt2 : count - n1 - r = 0) by (unfold r in *; lia).
+           destruct (IH s2 (count - n1 - r) (ret + n1 + r) ((out ++ ztake n1 payload) ++ ztake r p1) (zdrop r p1)
+                        HInv2 HRem2 ltac:(lia) ltac:(lia)) as (s' & E' & HPost' & Hcap' & Hfin').
+           rewrite E'. rewrite Hp2 in *. rewrite zlen_zdrop in * by lia.
+           set (n' := Z.min (count - n1 - r) (zlen payload - (n1 + r))) in *.
+           assert (Hn'0 : n' = 0) by (unfold n'; lia).
+           assert (Hn : n = n1 + r + n') by (unfold n; lia).
+           exists s'. rewrite Hn. splits; try lia.
+           ++ f_equal. f_equal; [f_equal; lia|].
+              rewrite <- !app_assoc. f_equal. rewrite Hout. rewrite (ztake_add (n1 + r) n') by lia. reflexivity.
+           ++ rewrite zdrop_zdrop in HPost' by lia. replace (n1 + r + n') with (n' + (n1 + r)) by lia. exact HPost'.
+      * (* count exhausted inside the chunk *)
+        change (0 <? 0) with false. cbv beta iota.
+        destruct (Z.eqb_spec (c_remain s1) 0) as [|_]; [lia|].
+        destruct (IH s1 (count - n1) (ret + n1) (out ++ ztake n1 payload) p1 HInv1 HRem1 ltac:(lia) ltac:(lia))
+          as (s' & E' & HPost' & Hcap' & Hfin').
+        rewrite E'. rewrite Hp1l in *.
+        set (n' := Z.min (count - n1) (zlen payload - n1)) in *.
+        assert (Hn'0 : n' = 0) by (unfold n'; lia).
+        assert (Hn : n = n1 + n') by (unfold n; lia).
+        exists s'. rewrite Hn. splits; try lia.
+        -- f_equal. f_equal; [f_equal; lia|]. rewrite <- app_assoc. f_equal. unfold p1. rewrite ztake_add by lia. reflexivity.
+        -- unfold p1 in HPost'. rewrite zdrop_zdrop in HPost' by lia. replace (n1 + n') with (n' + n1) by lia. exact HPost'.
+    + (* chunk boundary: fetch the next size line *)
+      cbv beta iota. change (0 <? 0) with false. cbv beta iota.
+      assert (Hz1 : c_remain s1 = 0) by lia. rewrite Hz1. change (0 =? 0) with true. cbv beta iota.
+      destruct (gnc_spec (S f) s1 p1 HInv1 Hz1) as (s3 & E3 & HPost3 & Hcap3 & Hmeas3).
+      { assert (total_len (c_ps s1) <= zlen (inp s1)).
+        { unfold inp, total_len. rewrite zlen_app. pose proof (zlen_nonneg (zdrop (c_cursor s1) (c_line s1))). lia. }
+        lia. }
+      rewrite E3. change (0 <? 0) with false. cbv beta iota.
+      destruct HPost3 as [[HFin3 Hp3]|[HInv3 HRem3]].
+      * pose proof HFin3 as (Hfin3 & _). rewrite loop_finished by exact Hfin3.
+        assert (Hn : n = n1) by (unfold p1 in Hp3; apply zdrop_nil_len in Hp3; [|lia]; unfold n; lia).
+        exists s3. rewrite Hn. splits; auto; try lia.
+        left. split; [exact HFin3|exact Hp3].
+      * pose proof HInv3 as (_ & Hfin3 & _). specialize (Hmeas3 Hfin3).
+        destruct (IH s3 (count - n1) (ret + n1) (out ++ ztake n1 payload) p1 HInv3 HRem3 ltac:(lia) ltac:(lia))
+          as (s' & E' & HPost' & Hcap' & Hfin').
+        rewrite E'. rewrite Hp1l in *.
+        set (n' := Z.min (count - n1) (zlen payload - n1)) in *.
+        assert (Hn : n = n1 + n') by (unfold n, n'; lia).
+        exists s'. rewrite Hn. splits; try lia.
+        -- f_equal. f_equal; [f_equal; lia|]. rewrite <- app_assoc. f_equal. unfold p1. rewrite ztake_add by (unfold n'; lia). reflexivity.
+        -- unfold p1 in HPost'. rewrite zdrop_zdrop in HPost' by (unfold n'; lia). replace (n1 + n') with (n' + n1) by lia. exact HPost'.
+        -- intros Hlt. apply Hfin'. lia.
 Qed.
